@@ -119,8 +119,21 @@ def run_r1(ctx, rule):
             continue
         for bb, t2 in util.calls_in(cf, lambda n: n == home):
             n_sites += 1
+            def missing_nonzero(fa, cf=cf):
+                # `len.saturating_sub(valid_len) != 0` (or `> 0`): the same test as valid_len < len
+                if fa[0] != "cmp" or fa[1] not in ("Ne", "Gt") or fa[3] != ("c", 0):
+                    return False
+                x = fa[2]
+                for _ in range(3):
+                    if x[0] == "l":
+                        x2 = sym(cf).origin(x)
+                        if x2 == x:
+                            break
+                        x = x2
+                return x[0] == "call" and norm(x[2]).rsplit("::", 1)[-1] in ("saturating_sub", "checked_sub") and len(x[3]) == 2 and x[3][0][0] == "l" and 2 <= x[3][0][1] <= cf.argc and x[3][1] == ("f", ("l", 1), "valid_len")
             ff = guards.holds(cf, bb, lambda fa: (guards.cmp_matches(fa, "Lt", lambda x: x == ("f", ("l", 1), "valid_len"), lambda x: x[0] == "l" and 2 <= x[1] <= cf.argc)
-                                                   or guards.cmp_matches(fa, "Le", lambda x: x == ("f", ("l", 1), "valid_len"), lambda x: x[0] == "l" and 2 <= x[1] <= cf.argc)))
+                                                   or guards.cmp_matches(fa, "Le", lambda x: x == ("f", ("l", 1), "valid_len"), lambda x: x[0] == "l" and 2 <= x[1] <= cf.argc)
+                                                   or missing_nonzero(fa)))
             how = guards.show_fact(cf, ff[1]) if ff else None
             if not ff and not cf.j.get("reachable_pub"):
                 # `loop { refill; if enough { break } }` in a private helper: the first refill is justified by the callers
